@@ -28,12 +28,13 @@ enum {
   V_EX_NULLID,         /* myth_create_ex(NULL, NULL, f, a): id not wanted */
   V_EX_STACK_ODD,      /* attr init + setstacksize(20000): not a multiple of the page size */
   V_EX_HINT,           /* attr init + setstacksize(16384) + 16 bytes of custom data (the scheduling hint read back with myth_wsapi_get_hint_*) */
+  V_EX_HINT_PF,        /* default stack + 16 bytes of custom data + parent-first */
   V_N
 };
 static const char * const v_name[] = { "create", "ex(attr=NULL)", "ex(attr=init)", "ex(parent-first)", "ex(stack=8K)",
-				       "ex(stack=16K,parent-first)", "ex(stack=64K)", "ex(stack=12K)", "ex(id=NULL)", "ex(stack=20000)", "ex(stack=16K,hint=16B)" };
+				       "ex(stack=16K,parent-first)", "ex(stack=64K)", "ex(stack=12K)", "ex(id=NULL)", "ex(stack=20000)", "ex(stack=16K,hint=16B)", "ex(hint=16B,parent-first)" };
 
-static inline int v_parent_first(int v) { return v == V_EX_PARENT_FIRST || v == V_EX_STACK_16K_PF; }
+static inline int v_parent_first(int v) { return v == V_EX_PARENT_FIRST || v == V_EX_STACK_16K_PF || v == V_EX_HINT_PF; }
 static inline size_t v_stack(int v) {
   switch (v) { case V_EX_STACK_8K: return 8192; case V_EX_STACK_16K_PF: return 16384; case V_EX_STACK_64K: return 65536;
   case V_EX_STACK_12K: return 12288; case V_EX_STACK_ODD: return 20000; case V_EX_HINT: return 16384; default: return 0; }
@@ -55,7 +56,7 @@ static inline void h_prepare_attr(myth_thread_attr_t * a, int v) {
   { int ds = -1; size_t s0 = 0; int rc = myth_thread_attr_getdetachstate(a, &ds); MV_CHECK(rc == 0 && ds == 0, "a freshly initialised attribute object reports detach state %d (rc %d), expected joinable (0)", ds, rc);
     rc = myth_thread_attr_getstacksize(a, &s0); MV_CHECK(rc == 0 && s0 >= 4096, "a freshly initialised attribute object reports stack size %zu (rc %d)", s0, rc); }
   size_t ss = v_stack(v);
-  if (v == V_EX_HINT) { static const unsigned long h_hint[2] = { 0x1122334455667788UL, 0 }; a->custom_data_size = sizeof h_hint; a->custom_data = (void *)h_hint; }
+  if (v == V_EX_HINT || v == V_EX_HINT_PF) { static const unsigned long h_hint[2] = { 0x1122334455667788UL, 0 }; a->custom_data_size = sizeof h_hint; a->custom_data = (void *)h_hint; }
   if (ss) { int rc = myth_thread_attr_setstacksize(a, ss); size_t s1 = 0; int r2 = myth_thread_attr_getstacksize(a, &s1);
     MV_CHECK(rc == 0 && r2 == 0 && s1 == ss, "setstacksize(%zu) returned %d, getstacksize then reports %zu (rc %d)", ss, rc, s1, r2); }
 }
